@@ -598,19 +598,71 @@ def uf_point_assignment(k=0, input_hyps=()):
     return hyps
 
 
-def pc_point_probe(inputs, k=0, uf_from_model=False):
-    """point instantiation ON the current path: input values are taken from a model of the linear part of
-    (assumptions and path condition); uninterpreted-function results get congruence-respecting generic values (or,
-    with uf_from_model, the model's own values).  Returns hypotheses or None."""
+def _pc_input_model(inputs):
+    """a model of the linear part of (assumptions, path condition), as generic as the path allows: all inputs pairwise
+    different if possible, else corresponding components of two inputs kept apart greedily.  Memoised per path state."""
+    import time as _t
+    ckey = ('pc-input-model', len(ENG.pc), len(ENG.assumes))
+    if ckey in ENG.uf_memo:
+        return ENG.uf_memo[ckey]
+    ENG.uf_memo[ckey] = None
+    t0 = _t.time()
     s = z3.Solver()
     s.set('timeout', 10000)
     for c in ENG._linear_part():
         s.add(c)
-    # prefer generic (pairwise different, non-zero) inputs where the path allows it
+    names = [nm for nm, v in sorted(inputs.items())]
     vars_ = [core.toz(v) for nm, v in sorted(inputs.items())]
     if str(s.check()) != 'sat':
+        ENG.nq += 1
+        ENG.tq += _t.time() - t0
         return None
     m = s.model()
+    nq = 1
+    s.set('timeout', 3000)
+    s.push()
+    s.add(z3.Distinct(*vars_) if len(vars_) > 1 else z3.BoolVal(True))
+    nq += 1
+    if str(s.check()) == 'sat':
+        m = s.model()
+        s.pop()
+    else:
+        s.pop()
+        s.set('timeout', 1500)
+        tries = 0
+        for a in range(len(vars_)):
+            for b in range(a + 1, len(vars_)):
+                # corresponding components of two inputs (names that differ in the leading tag only)
+                if names[a][1:] != names[b][1:] or tries >= 10:
+                    continue
+                va, vb = m.eval(vars_[a], model_completion=True), m.eval(vars_[b], model_completion=True)
+                if z3.is_true(z3.simplify(va == vb)):
+                    tries += 1
+                    nq += 1
+                    s.push()
+                    s.add(vars_[a] != vars_[b])
+                    if str(s.check()) == 'sat':
+                        m = s.model()
+                    else:
+                        s.pop()
+    ENG.nq += nq
+    ENG.tq += _t.time() - t0
+    ENG.uf_memo[ckey] = (m, vars_)
+    return ENG.uf_memo[ckey]
+
+
+def pc_point_probe(inputs, k=0, uf_from_model=False):
+    """point instantiation ON the current path: input values are taken from a model of the linear part of
+    (assumptions and path condition); uninterpreted-function results get congruence-respecting generic values (or,
+    with uf_from_model, the model's own values).  Returns hypotheses or None."""
+    ckey = ('pc-probe', len(ENG.pc), len(ENG.assumes), k, uf_from_model, len(ENG.records.get('ack_order', [])))
+    if ckey in ENG.uf_memo:
+        return ENG.uf_memo[ckey]
+    ENG.uf_memo[ckey] = None
+    mv = _pc_input_model(inputs)
+    if mv is None:
+        return None
+    m, vars_ = mv
     ih = []
     for v in vars_:
         val = m.eval(v, model_completion=True)
@@ -620,6 +672,8 @@ def pc_point_probe(inputs, k=0, uf_from_model=False):
         for fname, terms, outs in ENG.records.get('ack_order', []):
             for o in outs:
                 uh.append(o == m.eval(o, model_completion=True))
+        ENG.uf_memo[ckey] = ih + uh
         return ih + uh
     uh = uf_point_assignment(k, ih)
-    return None if uh is None else ih + uh
+    ENG.uf_memo[ckey] = None if uh is None else ih + uh
+    return ENG.uf_memo[ckey]
